@@ -80,6 +80,53 @@ def specOf (et name iv key : String) : Option (EncSpec × Bytes) :=
     else none
   | _, _, _, _ => none
 
+/-- one element of the chunk vector handed to `multi_chunk`: `M:hex` = `ChunkData::new(d, M)?`,
+`rM:hex:decl` = `ChunkData::from_compressed(M, d, decl)` (`decl` a number or `-` for `None`). -/
+inductive Item
+  | new (d : Bytes) (m : Mode)
+  | raw (c : Chunk)
+
+def parseItems (s : String) : Option (List Item) :=
+  if s == "-" then some [] else
+  (s.splitOn ",").mapM fun ent =>
+    match ent.splitOn ":" with
+    | [m, d] =>
+      match modeOf m, parseHex d with
+      | some m, some d => some (.new d m)
+      | _, _ => none
+    | [m, d, decl] =>
+      if m.startsWith "r" then
+        match modeOf (m.drop 1).toString, parseHex d with
+        | some m, some d =>
+          if decl == "-" then some (.raw ⟨m, d, none⟩)
+          else decl.toNat?.map fun n => .raw ⟨m, d, some n⟩
+        | _, _ => none
+      else none
+    | _ => none
+
+def allNew : List Item → Option (List (Bytes × Mode))
+  | [] => some []
+  | .new d m :: rest => (allNew rest).map ((d, m) :: ·)
+  | .raw _ :: _ => none
+
+/-- the chunk vector in the order the caller builds it; the first failing `ChunkData::new` is the
+caller's error.  A vector of `new` items only is the model's `newChunks`. -/
+def itemChunks (cd : Codec) (items : List Item) : Except Err (List Chunk) :=
+  match allNew items with
+  | some ds => newChunks cd ds
+  | none =>
+    items.foldr (fun it acc =>
+      match (match it with
+             | .new d m => Chunk.new cd d m
+             | .raw c => .ok c), acc with
+      | .error e, _ => .error e
+      | .ok _, .error e => .error e
+      | .ok c, .ok cs => .ok (c :: cs)) (.ok [])
+
+def outFile : Except Err File → String
+  | .ok f => "ok " ++ hexOf (serialize f)
+  | .error e => errStr e
+
 abbrev St := Option Builder
 
 def stepResp (st : St) (cd : Codec) (op : Op) : St × String :=
@@ -152,6 +199,27 @@ def handle (st : St) : List String → St × String
     match parseHex f, parseTab tab with
     | some f, some t =>
       (st, outBytes (decodePlainBytes (codecOf t) f))
+    | _, _ => (st, "bad-op")
+  | ["compress", cs, m, d, tab] =>
+    match cs.toNat?, modeOf m, parseHex d, parseTab tab with
+    | some cs, some m, some d, some t => (st, outFile (compress (codecOf t) Spec.Md5.md5 d cs m))
+    | _, _, _, _ => (st, "bad-op")
+  | ["single", m, d, tab] =>
+    match modeOf m, parseHex d, parseTab tab with
+    | some m, some d, some t => (st, outFile (singleChunk (codecOf t) d m))
+    | _, _, _ => (st, "bad-op")
+  | ["multi", fmt, items, tab] =>
+    match parseItems items, parseTab tab with
+    | some items, some t =>
+      match itemChunks (codecOf t) items with
+      | .error e => (st, errStr e)
+      | .ok chunks =>
+        if fmt == "std" then (st, outFile (multiChunk Spec.Md5.md5 chunks))
+        else if fmt == "ext" then
+          match multiChunkExt (codecOf t) Spec.Md5.md5 chunks with
+          | .ok xf => (st, "ok " ++ hexOf (serializeX xf))
+          | .error e => (st, errStr e)
+        else (st, "bad-op")
     | _, _ => (st, "bad-op")
   | ["rows", f] =>
     match parseHex f with
